@@ -122,6 +122,18 @@ def build_pool(seed, k):
     for cc in ['GB', 'NL', 'XX', 'NO', 'ME', 'BE', 'ES', 'DE']:
         for v in [x for x in gen.pool('iban') if x[:2] in ('NL', 'NO', 'BE', 'ES', 'ME', 'GB', 'DE')][:6]:
             fixed.append(call('iban', 'validate', cc + v[2:]))
+    # IBANs that pass the generic rules but not the national ones, next to calls of the national module itself (whether the
+    # national check runs must not depend on what was imported or cached before)
+    for nat in ('be.iban', 'es.iban', 'no.iban', 'me.iban'):
+        for v in gen.pool(nat)[:3]:
+            i = len(v) - 3
+            w = v[:i] + str((int(v[i]) + 1) % 10) + v[i + 1:]
+            val = int(''.join(str(int(c, 36)) for c in w[4:] + w[:2] + '00')) % 97
+            w = w[:2] + '%02d' % (98 - val) + w[4:]
+            fixed.append(call('iban', 'validate', w))
+            fixed.append(call('iban', 'is_valid', w))
+            fixed.append(call(nat, 'validate', w))
+            fixed.append(call(nat, 'validate', v))
     for name, m in mods.items():
         p = gen.pool(name)
         if not p:
